@@ -19,3 +19,35 @@ def isilen_edges(c, st, ret):
         d = arith('-', c.S[1], c.S[0])
         return _eq_list(ret, [d, d])
     return False
+
+
+def _in_d11(S, n, t0, t1):
+    if n == 1:
+        return bor(cmp('==', S[0], t0), cmp('==', S[0], t1))
+    if n == 2:
+        return band(cmp('==', S[0], t0), cmp('==', S[1], t1))
+    return False
+
+
+def thresh_edges_class(c):
+    """default_thresh on a list containing a train of the D11 class"""
+    return bor(*[_in_d11(S, S.n, c.t0, c.t1) for S in c.accs])
+
+
+def thresh_edges(c, st, ret):
+    """D11 seen through default_thresh: the RMS over the pools isi_lengths really returns (one extra entry - a zero-length
+    interval or the single interval a second time - for every train of the class)"""
+    from .contracts.misc import IsiLengths
+    cnt, ssq = 0, 0
+    for S in c.accs:
+        for cond, v in IsiLengths.expected(S, S.n, c.t0, c.t1):
+            cnt = arith('+', cnt, ite(cond, 1, 0))
+            ssq = arith('+', ssq, ite(cond, arith('*', v, v), 0))
+        cls = _in_d11(S, S.n, c.t0, c.t1)
+        if cls is not False:
+            cnt = arith('+', cnt, ite(cls, 1, 0))
+            if S.n == 2:
+                d = arith('-', S[1], S[0])
+                ssq = arith('+', ssq, ite(cls, arith('*', d, d), 0))
+    r = split(ret)[0]
+    return band(cmp('>=', r, 0), cmp('==', arith('*', arith('*', r, r), cnt), ssq))
